@@ -71,6 +71,14 @@ def generate(seed, index, tier):
     ch = core.Chooser(seed)
     mag = ch.choice(gp.MAGS)
     cmds = _gen_path_cmds(ch, mag)
+    if index % 6 == 4:
+        # degenerate but legal geometry: a coordinate pair repeated (control on an end point, zero-length segments)
+        for cmd in cmds:
+            for g in cmd["g"]:
+                if cmd["c"].upper() in "CSQ" and len(g) >= 4 and ch.coin(0.5):
+                    g[0], g[1] = g[-2], g[-1]
+                elif cmd["c"] in "lt" and ch.coin(0.3):
+                    g[0], g[1] = "0", "0"
     case = {"cmds": cmds, "style": ch.int(0, 63), "fragment": bool(index % 7 == 3), "mag": mag}
     has_arc = any(c["c"] in "Aa" for c in cmds)
     xfs = XF_SIM if has_arc else XF_ANY
@@ -103,6 +111,7 @@ def generate(seed, index, tier):
         else:
             ops.append(["obs", ch.choice(OBS)])
     case["ops"] = ops
+    case["negative_index"] = bool(index % 5 == 3)
     if index % 11 == 5:
         import math
 
@@ -449,7 +458,7 @@ def execute(case, se, out, trace):
                     nlib = P.count_subpaths()
                     if nlib != n:
                         raise V("structure", ["count_subpaths"], "count_subpaths()=%d for %s; the SVG partition has %d" % (nlib, ob.kinds(P), n))
-                    view = P.subpath(i)
+                    view = P.subpath(i - n if case.get("negative_index") else i)
                 except core.Violation:
                     raise
                 except Exception as e:
